@@ -80,7 +80,7 @@ def run(prog, ctx):
         res.obligations += 1
         if ok is None:
             res.undecided += 1
-            res.extra.setdefault("undecided", []).append("%s %s" % (rule, msg))
+            res.extra.setdefault("undecided_items", []).append("%s %s" % (rule, msg))
         elif ok:
             res.discharged += 1
         else:
@@ -501,7 +501,7 @@ def run(prog, ctx):
                     k, len(diff), "y" if len(diff) == 1 else "ies", diff[0], v[diff[0]], want[diff[0]]))
             else:
                 res.undecided += 1
-                res.extra.setdefault("undecided", []).append("C01.T3 reference table %s has no counterpart in the crate" % name)
+                res.extra.setdefault("undecided_items", []).append("C01.T3 reference table %s has no counterpart in the crate" % name)
     res.rule("C01.T3", n_s, 10, "empirical calibration tables equal to the pinned reference")
 
     # ------------------------------------------------------------------ C01.D role dispatch
@@ -702,7 +702,7 @@ def run(prog, ctx):
         res.discharged += r11.discharged
         res.undecided += r11.undecided + (r11.obligations - r11.discharged - r11.undecided - len(r11.violations) if r11.obligations - r11.discharged - r11.undecided - len(r11.violations) > 0 else 0)
     except Exception as ex:   # the imported pack failing must not take C01 down with a false alarm
-        res.extra.setdefault("undecided", []).append("C01.S could not run the C11 co-simulation: %r" % (ex,))
+        res.extra.setdefault("undecided_items", []).append("C01.S could not run the C11 co-simulation: %r" % (ex,))
     res.rule("C01.S", n_sx, 0, "writer->reader co-simulated states of HLL/CPC/theta (imported from C11)")
 
     # ------------------------------------------------------------------ C01.M the state the estimators read is the right state
@@ -714,7 +714,7 @@ def run(prog, ctx):
         try:
             r = importlib.import_module("analyzer.rules." + pack).run(prog, dict(ctx))
         except Exception as ex:
-            res.extra.setdefault("undecided", []).append("C01.M could not run %s: %r" % (pack, ex))
+            res.extra.setdefault("undecided_items", []).append("C01.M could not run %s: %r" % (pack, ex))
             continue
         n_m += sum(v.get("instances", 0) for v in r.rules.values())
         for v in r.violations:
